@@ -5,7 +5,7 @@ from .. import ndarr
 from ..ndarr import Arr, InterpRaise
 from ..absint import ClassRef, Interp
 from ..libmodels import Models
-from ..dv import DV, tags_of
+from ..dv import DV, tags_of, NONZERO_STEPS
 from ..dvrun import explore, StepGenModel, tensor_f
 from ..pipeline import Pipeline
 from . import formal, e2e
@@ -95,7 +95,7 @@ def axes_case(ctx, core, n, fshape, method):
         f = tensor_f(s, n, fshape)
         d = C(f, step=StepGenModel(num_steps=7), method=method)
         return d(s.x_array((n,)))
-    ex = explore(ctx.repo, body, pinned={'(np.abs(step) > 0).all()': True})
+    ex = explore(ctx.repo, body, pinned=NONZERO_STEPS)
     construct = 'core.Jacobian.__call__'
     for decisions, res, exc in ex.paths:
         path = ', '.join('%s=%s' % (d[1], d[0]) for d in decisions) or 'straight'
@@ -152,7 +152,7 @@ def gradient(ctx):
                 return f0(x)
             d = C(f, step=StepGenModel(num_steps=7), full_output=full_output)
             return d(s.x_array(xshape))
-        ex = explore(ctx.repo, body, pinned={'(np.abs(step) > 0).all()': True})
+        ex = explore(ctx.repo, body, pinned=NONZERO_STEPS)
         label = 'Gradient/x.shape=%s/full_output=%s' % (xshape, full_output)
         expected = (n,) if n > 1 else ()
         for decisions, res, exc in ex.paths:
